@@ -72,7 +72,7 @@ def run(chk):
         for ind in fmtlib.INDENTS:
             if ind != 2 and ((not is_prog) or (not thorough and tag.startswith(("grammar", "core")) and rng.random() < 0.6)):
                 continue
-            cmds.append({"cmd": "fmtx", "id": len(cmds), "src": src, "indent": ind, "passes": 2})
+            cmds.append({"cmd": "fmtx", "id": len(cmds), "src": src, "indent": ind, "passes": 3 if is_prog else 2})
             meta.append((tag, src, ind))
     res = run_cmds(cmds, timeout_per_case=10)
     lines, evs = [], []
@@ -99,10 +99,16 @@ def run(chk):
             t = r.get("texts", [])
             what = "second pass declines the output of the first" if len(t) < 2 else "second pass changes the output of the first"
             cause = c19.cause_of(src, r)
+            if not cause and len(t) == 3 and t[1] == t[2]:
+                # converges on the second pass: was the first pass's layout broken by the line width?
+                strip = lambda x: [y for y in (c17.tokens_of(x) or []) if y != ","]
+                toks = c17.tokens_of(src) or []
+                if strip(t[0]) == strip(t[1]) and len(" ".join(toks)) > 100 and not r.get("comments_out"):
+                    cause = "width-forced break"
             key = f"c20:not a fixed point:{cause}" if cause else f"c20:not a fixed point:{tag}:indent={ind}:{src[:80]!r}"
             c1 = [fmtlib.norm_comment(c) for c in r.get("comments_out", [])]
             c2 = [fmtlib.norm_comment(c) for c in r.get("comments_out2", [])]
-            if len(t) == 2 and c1 != c2 and len(r.get("contexts_out", [])) == len(c1):
+            if len(t) >= 2 and c1 != c2 and len(r.get("contexts_out", [])) == len(c1):
                 # the second pass lost a comment the first pass had moved: the same finding as C19's comment loss at
                 # that place of the syntax tree
                 left = collections.Counter(c2)
